@@ -161,7 +161,7 @@ func (r *rwRT) interp(cfg rwConfig) *Interp {
 	in := &Interp{W: r.w, MaxDepth: 12, MaxVisits: 3, MaxRecur: 2}
 	// the rewriter's own configuration fields are not modified by the functions analysed
 	in.HavocKeep = func(key string) bool { return strings.HasPrefix(key, "r.") }
-	in.Fields = map[string]AV{"r.yieldAst.seqImportedName": mkString("ʂɘʠ")}
+	in.Fields = map[string]AV{"r.yieldAst.seqImportedName": mkString("ʂɘʠ"), "r.yieldAst.callNormal": Sym{Name: "callNormal", NN: true}}
 	bound := map[string]bool{}
 	for _, b := range rwBoundaries {
 		bound[b] = true
